@@ -158,8 +158,11 @@ def describe_case(line):
 def run_driver(cases_path, sem):
     r = sh([os.path.join(BUILD, 'driver'), cases_path, sem], timeout=7000)
     mism, fails, summary = [], [], None
+    rejects = []
     for line in r.stdout.split('\n'):
         f = line.split('\t')
+        if f[0] == 'VALIDATOR-REJECT' and len(f) >= 4:
+            rejects.append((int(f[1]), f[2], f[3]))
         if f[0] == 'MISMATCH' and len(f) >= 4:
             mism.append((int(f[1]), f[2], '\t'.join(f[3:])))
         elif f[0] == 'FAIL' and len(f) >= 4:
@@ -169,6 +172,8 @@ def run_driver(cases_path, sem):
                 summary = json.loads(f[1])
             except Exception:
                 pass
+    if summary is not None:
+        summary['validator_rejects'] = rejects[:5]
     return mism, fails, summary, r
 
 
@@ -285,6 +290,11 @@ def main_check(tier, prop):
         viol = 1
         violation(prop, {'property': prop, 'broken': 'proof obligation no longer checks (coq build failed)', 'obligation': broken_obligation,
                          'note': 'the correspondence and the oracles found no failing input on this run'}, 'obligation', nofail=True)
+    if summary.get('validator_rejects') and not viol:
+        viol = 1
+        idx, nm, detail = summary['validator_rejects'][0]
+        violation(prop, {'property': prop, 'broken': 'precondition of theorem emit_script_correct_checked: a validator (chk_block / wf_render) rejects the model\'s own chunk graph or code of script %s' % nm,
+                         'detail': detail[:3000], 'note': 'the theorem does not cover this script; the correspondence and the oracles found no failing input'}, 'validator', nofail=True)
     if bad_audit and not viol:
         viol = 1
         violation(prop, {'property': prop, 'broken': 'audit: forbidden construct in the Coq development', 'lines': bad_audit[:20]}, 'audit', nofail=True)
